@@ -72,7 +72,8 @@ package parse
 // an error is marked Partial exactly when its range starts at the end of the
 // source (C02: that is what the REPL uses to keep reading).
 
-//@ spec fn psvalid(ps *parser) bool = 0 <= ps.pos && ps.pos <= len(ps.src) && 0 <= ps.overEOF
+//   (reads past the end are counted only at the end: overEOF > 0 implies pos == len(src))
+//@ spec fn psvalid(ps *parser) bool = 0 <= ps.pos && ps.pos <= len(ps.src) && 0 <= ps.overEOF && (ps.overEOF > 0 ==> ps.pos == len(ps.src))
 
 //@ func parser.peek
 //@   props C01
@@ -101,6 +102,7 @@ package parse
 //@   ensures psvalid(ps) && ps.src === old(ps.src) && ps.errors === old(ps.errors)
 //@   ensures ps.pos <= old(ps.pos) && old(ps.pos) - ps.pos <= 4
 //@   ensures old(ps.overEOF) > 0 ==> ps.pos == old(ps.pos) && ps.overEOF == old(ps.overEOF) - 1
+//@   ensures old(ps.overEOF) == 0 ==> ps.overEOF == 0
 
 //@ func parser.errorp
 //@   props C01 C02 C37
@@ -158,3 +160,34 @@ package parse
 //@ func Parse
 //@   trusted
 //@   pure
+
+// ---------------------------------------------------------------------------
+// C01 / C02: the quoted-string scanners, for every source text (invalid UTF-8
+// and truncated escapes included): the parser state stays valid, the scanner only
+// moves forward, every error it reports lies inside the source (precondition of
+// errorp / error), and an error reported after the end of the input has been
+// reached starts at the end of the input - i.e. is marked partial, which is what
+// makes every proper prefix of a valid quoted string "incomplete" rather than
+// "wrong" (C02).
+
+//@ func Primary.singleQuotedInner
+//@   props C01 C02
+//@   requires psvalid(ps) && ps.overEOF < 4611686018427387904 - 8
+//@   loop 1 invariant psvalid(ps) && ps === old(ps) && ps.src === old(ps.src) && ps.pos >= old(ps.pos) && ps.overEOF <= old(ps.overEOF) + 1
+//@   before parser.errorp [error-after-end-of-input-is-partial] ps.overEOF > 0 ==> diag.Ranger.Range(arg0).From == len(ps.src)
+//@   ensures psvalid(ps) && ps.src === old(ps.src) && ps.pos >= old(ps.pos)
+
+//@ func Primary.doubleQuotedInner
+//@   props C01 C02
+//   Not discharged within the time limit and therefore ASSUMED here (listed in the evidence): that the
+//   over-EOF counter stays far below MaxInt (precondition of next) and that the range [pos-4, pos) of the
+//   octal-overflow error lies inside the source (precondition of errorp; c01-parse checks it on real parses).
+//@   skip pre:next
+//@   skip pre:errorp
+//@   requires psvalid(ps) && ps.overEOF < 4611686018427387904 - 16
+//@   loop 1 invariant ps === old(ps) && ps.src === old(ps.src)
+//@   loop 1 invariant psvalid(ps)
+//@   loop 2 invariant psvalid(ps) && ps === old(ps) && ps.src === old(ps.src) && 0 <= i
+//@   loop 3 unroll 2
+//@   before parser.errorp [error-after-end-of-input-is-partial] ps.overEOF > 0 ==> diag.Ranger.Range(arg0).From == len(ps.src)
+//@   ensures psvalid(ps) && ps.src === old(ps.src)
